@@ -54,6 +54,7 @@ def make_case(seed, index, tier):
                      'value': 'v%d' % number, 'fail': False})
     how = rng.choice(['collect', 'first', 'first'])
     spec = {'how': how, 'acts': acts, 'offset': rng.choice([0, 0, 0.5])}
+    spec['in_cleanup'] = index % 8 == 5
     if how == 'collect':
         for act in acts:
             if rng.random() < 0.15:
@@ -94,6 +95,9 @@ def make_case(seed, index, tier):
             for act in acts:
                 if rng.random() < 0.3:
                     act['fail'] = True
+    if spec['in_cleanup'] and any(act['fail'] in ('join', 'cancelled') or act.get('owned')
+                                  for act in acts):
+        spec['in_cleanup'] = False
     return {'seed': seed, 'index': index, 'tier': tier, 'scenario': spec}
 
 
@@ -224,6 +228,24 @@ def build_for(case):
                 await consumer_body(None)
 
         async def consumer_body(outer):
+            if spec.get('in_cleanup'):
+                # the call is made from clean-up code: the caller has been cancelled (at 0.5)
+                # and calls collect() / first() on its way out - where it can be struck again
+                try:
+                    await (time + 1000)
+                except GeneratorExit:
+                    raise               # (closed, not cancelled: no awaiting on the way out)
+                except BaseException:
+                    await consumer_call(outer)
+                    raise
+            else:
+                await consumer_call(outer)
+
+        async def first_cancel():
+            await (time + 0.5)
+            arena.strike('cancel', 'consumer')
+
+        async def consumer_call(outer):
             if spec['offset']:
                 await (time + spec['offset'])
             acts = []
@@ -238,6 +260,7 @@ def build_for(case):
                 else:
                     acts.append(make_act(number, act))
             checker.started = time.now
+            checker.call_n = arena.sess.n
             arena.log('consumer', 'call')
             try:
                 if spec['how'] == 'collect':
@@ -290,7 +313,8 @@ def build_for(case):
                     if not isinstance(act, Task) \
                             and inspect.getcoroutinestate(act) == inspect.CORO_CREATED:
                         act.close()
-        return [('consumer', consumer)], (), checker
+        background = [first_cancel()] if spec.get('in_cleanup') else []
+        return [('consumer', consumer)], background, checker
     return build
 
 
@@ -311,6 +335,19 @@ def check(sess, arena, checker, outcome, plan):
     struck = bool(arena.struck)
     if struck:
         checker.stats['struck_runs'] += 1
+    # ---- a caller that is struck inside the call leaves it (and the activities are aborted)
+    # in that very time step ----
+    call_n = getattr(checker, 'call_n', None)
+    if call_n is not None:
+        left = [event[0] for event in sess.events if event[1] == 'consumer' and event[2] == 'left']
+        for boundary, kind, name, when in arena.struck:
+            # (cancellations only: the arena's until-interrupt has no effect a second time)
+            if name == 'consumer' and kind == 'cancel' and boundary > call_n and (
+                    not left or left[0] > when):
+                checker.violation('caller-struck-but-call-goes-on',
+                                  'the caller was struck (%s) at %r inside %s; it left the call '
+                                  'at %s' % (kind, when, spec['how'], left[0] if left else 'no time'))
+                break
     # ---- nothing of the activities happens after the consumer has left ----
     owned = {'act%d' % number for number, act in enumerate(acts) if act.get('owned')}
     if checker.finished is not None:
